@@ -36,6 +36,9 @@ def configs(tier):
         for k0 in itertools.product(range(b), repeat=min(L, 2)):
             out.append(dict(group="arraymap", L=L, b=b, nops=nops, init=init, max=mx, k0=list(k0)))
     out.append(dict(group="wrappers"))
+    for G in ([[0, 0], [0, 1]], [[0, 1], [1, 0]], [[1, 1], [1, 1]]):
+        for size in (4, 64):
+            out.append(dict(group="transparent", G=G, max_size=size))
     for t in ((0, 1, 2) if True else ()):
         out.append(dict(group="pedcache", ped="trio2", fn="gibbs", t=t))
         out.append(dict(group="pedcache", ped="trio2", fn="mh", t=t))
@@ -254,6 +257,78 @@ def _run_wrappers(c, col):
                           desc="calling dict cache keyed by the VCF index of the sorted alleles; second lookup (any allele order) served from the cache")
 
 
+# ------------------------------------------------------------------ 2b. cache on / off / tiny (flushing) cache: same move distribution
+
+
+def _run_transparent(c, col):
+    """base_step and interval_step with the real likelihood on symbolic reads: the probability vector handed to
+    random_choice and the returned llk are the same terms with cache=None, with a warm cache and with a cache so small
+    that it is flushed in between"""
+    E.cfg.concrete_ints = True
+    mut = E.load("mchap.assemble.mutation")
+    st = E.load("mchap.assemble.structural")
+    am = E.load("mchap.assemble.arraymap")
+    site = "mchap.assemble.likelihood.log_likelihood_cached"
+    G = rnp.array(c["G"], dtype=rnp.int8)
+    P, B = G.shape
+    nal = [2, 2]
+    cap = {}
+
+    def choice(p):
+        cap.setdefault("p", []).append(p.copy())
+        return cap["force"]
+
+    mut.random_choice = choice
+    st.random_choice = choice
+
+    def body(ctx):
+        reads = E.SArray((2, B, 2), float)
+        for r in range(2):
+            for j in range(B):
+                for a in range(2):
+                    rnp.ndarray.__setitem__(reads, (r, j, a), E.SymReal(E.fresh_real(ctx, "p%d_%d_%d" % (r, j, a), 0)))
+        lk = E.load("mchap.assemble.likelihood")
+        lu = E.np.log(E.np.array(nal, dtype=float)).sum()
+        counts = rnp.array([2, 1])
+        out = {}
+        for mode in ("none", "cache"):
+            cap["p"] = []
+            cache = None if mode == "none" else am.new(P * B, 2, initial_size=2, max_size=c["max_size"])
+            g = G.copy()
+            llk = lk.log_likelihood(reads, g, read_counts=counts)
+            res = []
+            # a short history: mutation at (0,1) forced to the other allele, then back, then a structural step, each re-using the cache
+            for (h, j) in ((0, 1), (0, 1), (1, 0)):
+                cap["force"] = 1 - int(g[h, j])
+                llk, cache = mut.base_step(g, reads, llk, h, j, 2, lu, inbreeding=0, temp=1, read_counts=counts, cache=cache)
+                res.append(llk)
+            cap["force"] = 0
+            llk, cache = st.interval_step(g, reads, llk, lu, inbreeding=0, interval=rnp.array([0, 1]), step_type=0, temp=1, read_counts=counts, cache=cache)
+            res.append(llk)
+            out[mode] = (list(cap["p"]), res, g.copy())
+        return out
+
+    first = True
+    for pr in E.explore(body, stats=col.stats):
+        if pr.exc is not None:
+            col.fail(site, "exception", witness=dict(exc=repr(pr.exc)), desc="raised %r" % (pr.exc,))
+            continue
+        col.path()
+        if first:
+            col.reachable(pr.ctx)
+            first = False
+        (p0, l0, g0), (p1, l1, g1) = pr.value["none"], pr.value["cache"]
+        if len(p0) != len(p1) or not (g0 == g1).all():
+            col.fail(site, "trajectory-differs", witness=dict(G=c["G"]), desc="cache changes the number of proposals or the resulting genotype")
+            continue
+        cl = []
+        for a, b in zip(p0, p1):
+            cl += [E.real_term(x) == E.real_term(y) for x, y in zip(a, b)]
+        cl += [E.exp_term(x) == E.exp_term(y) for x, y in zip(l0, l1)]
+        col.check(pr.ctx, z3.And(cl), site, "cache-changes-kernel", witness=dict(G=c["G"], max_size=c["max_size"]), shape=dict(flush=c["max_size"] <= 4),
+                  desc="probabilities handed to random_choice and carried llks are identical with cache=None and with an array_map cache (max_size=%d: %s) over a 4-move history on symbolic reads" % (c["max_size"], "flushes forced" if c["max_size"] <= 4 else "no flush"))
+
+
 # ------------------------------------------------------------------ 4. pedigree dict caches with symbolic read counts
 
 
@@ -425,9 +500,43 @@ def replay(v):
         return not good, "get(%s) = %r after sets %s" % (q.tolist(), out, hist)
     if c["group"] == "pedcache":
         return _replay_pedcache(v)
+    if c["group"] == "transparent":
+        return _replay_transparent(v)
     if c["group"] == "wrappers":
         return _replay_wrappers(v)
     return False, "kind?"
+
+
+def _replay_transparent(v):
+    """the same 4-move history on the real jitted code with and without cache (seeded identically)"""
+    import math
+    from mchap.assemble import mutation as rm, structural as rs, arraymap as ram
+    from mchap.assemble.likelihood import log_likelihood
+    from mchap.jitutils import seed_numba
+
+    c = v["config"]
+    m = v.get("model") or {}
+    G = rnp.array(c["G"], dtype=rnp.int8)
+    P, B = G.shape
+    reads = rnp.array([[[float(m.get("p%d_%d_%d" % (r, j, a), 0.3 + 0.2 * a + 0.1 * r)) for a in range(2)] for j in range(B)] for r in range(2)])
+    counts = rnp.array([2, 1])
+    lu = math.log(4.0)
+    outs = []
+    for mode in ("none", "cache"):
+        seed_numba(5)
+        rnp.random.seed(5)
+        cache = None if mode == "none" else ram.new(P * B, 2, initial_size=2, max_size=c["max_size"])
+        g = G.copy()
+        llk = log_likelihood(reads, g, read_counts=counts)
+        tr = []
+        for _ in range(20):
+            for (h, j) in ((0, 1), (1, 0), (0, 0)):
+                llk, cache = rm.base_step(g, reads, llk, h, j, 2, lu, 0.0, 1.0, counts, cache)
+            llk, cache = rs.interval_step(g, reads, llk, lu, 0.0, rnp.array([0, 1]), 0, 1.0, counts, cache)
+            tr.append((g.copy().tolist(), float(llk)))
+        outs.append(tr)
+    same = outs[0] == outs[1]
+    return not same, "20-iteration trajectories with and without cache %s (reads %s)" % ("agree" if same else "DIFFER", reads.tolist())
 
 
 def _replay_wrappers(v):
